@@ -450,7 +450,25 @@ def run_seq(prop, tier, seed, replay=None):
 
 # ---- function families: a TLA+ module defines the function, a Go driver records (input, output) lines -----------
 
+REQ_RULE = ("one evaluation = one crafted request written as raw bytes to the full handler chain and answered by an echo target; the trace "
+            "spec compares what the target received / the client got back with the specification's function; distinct_nontrivial = "
+            "evaluations that exercised the listed aspects (counted by the trace spec)")
+
 FN = {
+    "C13": dict(test="TestReqSuite", module="ForwardTrace.tla", cfg="ForwardTrace.cfg", mc=("MC_Forward.tla", "MC_Forward.cfg"),
+                keep={"reset", "fwd", "harness_error"},
+                invs=["C13_path", "C13_line", "C13_query", "C13_hdrs", "C13_body", "C13_xff", "C13_xf", "C13_rid", "C13_rstart", "C13_resp"],
+                cov=["C13_strip", "C13_fwd", "C13_xff", "C13_resp"],
+                sizes={"quick": {"VERIF_SUITE": "forward", "VERIF_N": "1500"}, "thorough": {"VERIF_SUITE": "forward", "VERIF_N": "40000"}}, rule=REQ_RULE),
+    "C14": dict(test="TestReqSuite", module="BufferTrace.tla", cfg="BufferTrace.cfg", mc=("MC_Buffer.tla", "MC_Buffer.cfg"),
+                keep={"reset", "bufw", "bufreq", "harness_error"},
+                invs=["C14_mem", "C14_buf", "C14_outcome", "C14_early", "C14_tmp"],
+                cov=["C14_spill", "C14_over", "C14_413", "C14_500", "C14_sse", "C14_early"],
+                sizes={"quick": {"VERIF_SUITE": "buffer", "VERIF_N": "1500"}, "thorough": {"VERIF_SUITE": "buffer", "VERIF_N": "40000"}}, rule=REQ_RULE),
+    "C15": dict(test="TestReqSuite", module="FaultsTrace.tla", cfg="FaultsTrace.cfg", mc=("MC_Faults.tla", "MC_Faults.cfg"),
+                keep={"reset", "fault_obs", "fault_after", "harness_error"},
+                invs=["C15_outcome", "C15_residue"], cov=["C15_early", "C15_late", "C15_stall", "C15_custom", "C15_after"],
+                sizes={"quick": {"VERIF_SUITE": "faults", "VERIF_N": "1200"}, "thorough": {"VERIF_SUITE": "faults", "VERIF_N": "30000"}}, rule=REQ_RULE),
     "C10": dict(test="TestRolloutFn", module="RolloutTrace.tla", cfg="RolloutTrace.cfg", mc=("Rollout.tla", "Rollout.cfg"),
                 keep={"reset", "rollout_obs", "rollout_end", "harness_error"},
                 invs=["C10_fn", "C10_off", "C10_optin", "C10_allow", "C10_share"], cov=["C10_fn", "C10_allow", "C10_optin", "C10_off"],
